@@ -152,7 +152,7 @@ func caseC13(r *rand.Rand, f *os.File, label string, maxTips int) {
 				nw = strings.Replace(nw, ",", ",\n", 1+r.Intn(3))
 			}
 			sb.WriteString(nw)
-			sb.WriteString([]string{"\n", "\n\n", "\r\n", " \n", "\n\n\n"}[r.Intn(5)])
+			sb.WriteString([]string{"\n", "\n\n", "\r\n", " \n", "\n\n\n", "\t\n", " \t\r\n", "\t \n  \n"}[r.Intn(8)])
 		}
 		text := sb.String()
 		if r.Intn(4) == 0 {
@@ -188,8 +188,6 @@ func splitEvent(f *os.File, label string, lines [][]string) {
 			switch c {
 			case "x":
 				sb.WriteString("(a,b)")
-			case " ":
-				sb.WriteString([]string{" ", "\t"}[len(ln)%2])
 			default:
 				sb.WriteString(c)
 			}
@@ -216,7 +214,6 @@ func splitEvent(f *os.File, label string, lines [][]string) {
 			}
 			// back to the model's characters
 			g = strings.ReplaceAll(g, "(a,b)", "x")
-			g = strings.ReplaceAll(g, "\t", " ")
 			groups = append(groups, splitChars(g))
 		}
 		ev["groups"] = groups
@@ -570,6 +567,9 @@ func init() {
 		from := fs.Int("from", 0, "")
 		to := fs.Int("to", 100, "")
 		out := fs.String("out", "trace.ndjson", "")
+		sweep := fs.Bool("sweep", false, "also run this shard's part of the systematic sweep")
+		sweepMod := fs.Int("sweepmod", 1, "")
+		sweepIdx := fs.Int("sweepidx", 0, "")
 		fs.Parse(args)
 		f, err := os.Create(*out)
 		if err != nil {
@@ -578,6 +578,56 @@ func init() {
 		defer f.Close()
 		var jobs []readJob
 		meta := map[int]map[string]interface{}{}
+		addJob := func(label string, format int, data string) {
+			for _, entry := range []string{"multi", "first"} {
+				id := len(jobs)
+				jobs = append(jobs, readJob{Id: id, Format: format, Entry: entry, Data: base64.StdEncoding.EncodeToString([]byte(data))})
+				txt := data
+				if len(txt) > 300 {
+					txt = txt[:300] + "..."
+				}
+				meta[id] = map[string]interface{}{"case": label, "format": formatNames[format], "entry": entry, "input": txt, "bytes": len(data)}
+			}
+		}
+		if *sweep {
+			// systematic part: every truncation of every small valid document, and at every '=', '[', ';', ',' and line end
+			// the variants that remove the value / the closing bracket / the separator or insert a blank-only line
+			docs := validDocs(rand.New(rand.NewSource(12345)))
+			n := 0
+			for _, format := range []int{utils.FORMAT_NEWICK, utils.FORMAT_NEXUS, utils.FORMAT_PHYLOXML, utils.FORMAT_NEXTSTRAIN} {
+				for di, doc := range docs[format] {
+					var variants []string
+					for i := 0; i <= len(doc); i++ {
+						variants = append(variants, doc[:i])
+					}
+					for i := 0; i < len(doc); i++ {
+						c := doc[i]
+						rest := doc[i+1:]
+						switch c {
+						case '=':
+							// the value after '=' removed (up to the next blank, ';' or end of line), or replaced by a line end
+							j := 0
+							for j < len(rest) && !strings.ContainsRune(" \t\r\n;", rune(rest[j])) {
+								j++
+							}
+							variants = append(variants, doc[:i+1]+rest[j:], doc[:i+1]+"\n"+rest[j:], doc[:i+1]+"\r\n", doc[:i+1]+" ;"+rest[j:])
+						case '[', '(', '<', '{', '"':
+							variants = append(variants, doc[:i]+rest, doc[:i+1]+string(c)+rest)
+						case ']', ')', ';', ',', ':', '>', '}':
+							variants = append(variants, doc[:i]+rest, doc[:i+1]+string(c)+rest)
+						case '\n':
+							variants = append(variants, doc[:i+1]+"  \t \n"+rest, doc[:i+1]+"\n"+rest)
+						}
+					}
+					for vi, v := range variants {
+						if n%*sweepMod == *sweepIdx {
+							addJob(fmt.Sprintf("C02-sweep-%s-%d-%d", formatNames[format], di, vi), format, v)
+						}
+						n++
+					}
+				}
+			}
+		}
 		for k := *from; k < *to; k++ {
 			s := *seed*1000003 + int64(k)
 			r := rand.New(rand.NewSource(s))
@@ -597,15 +647,7 @@ func init() {
 			default:
 				data = mutate(r, base)
 			}
-			for _, entry := range []string{"multi", "first"} {
-				id := len(jobs)
-				jobs = append(jobs, readJob{Id: id, Format: format, Entry: entry, Data: base64.StdEncoding.EncodeToString([]byte(data))})
-				txt := data
-				if len(txt) > 300 {
-					txt = txt[:300] + "..."
-				}
-				meta[id] = map[string]interface{}{"case": fmt.Sprintf("C02-s%d-k%d", *seed, k), "format": formatNames[format], "entry": entry, "input": txt, "bytes": len(data)}
-			}
+			addJob(fmt.Sprintf("C02-s%d-k%d", *seed, k), format, data)
 		}
 		res := runReadJobs(jobs, 15*time.Second)
 		// an outcome other than a clean return is re-run alone before being believed
